@@ -25,7 +25,7 @@ import (
 func init() { register("C18", checkC18) }
 
 // six sites: read, write (two sites), execve, a number that is in no table, and number 0 through the XOR idiom
-var c18SiteNames = []string{"read", "write", "write", "execve", "", "#0"}
+var c18SiteNames = []string{"read", "write", "write", "exit_group", "", "#0"} // exit_group: a name with an underscore
 
 func c18Listing(a *refsem.Arch, set int, i386 bool) (text string, found []string) {
 	raw := "SYSCALL"
@@ -117,8 +117,8 @@ func checkC18(tier, replay string) int {
 		}
 	}()
 	archOf := map[string]*refsem.Arch{"amd64": refsem.ArchByName("x86_64"), "386": refsem.ArchByName("i386")}
-	bUniverse := []string{"read", "execve", "bogus_syscall"}
-	aUniverse := []string{"write", "openat", "bogus_allow", "waitpid"} // waitpid exists on i386 only
+	bUniverse := []string{"read", "exit_group", "bogus_syscall"}
+	aUniverse := []string{"write", "rt_sigreturn", "bogus_allow", "waitpid"} // waitpid exists on i386 only; rt_sigreturn has an underscore
 	subsets := func(u []string) [][]string {
 		var out [][]string
 		for m := 0; m < 1<<len(u); m++ {
@@ -281,7 +281,7 @@ func checkC18(tier, replay string) int {
 	ctx.Cov["profiler_runs"] = done
 	ctx.Cov["runs_with_non_empty_profile"] = nonEmpty
 	ctx.Cov["filter_events_executed"] = events
-	ctx.Cov["rule"] = "the real profiler binary (with a fake `go` tool printing a synthetic listing) is run for every sub-multiset of a 6-site universe (read, write at two sites, execve, a number in no table, syscall 0 through the XOR idiom) x blacklist subsets of {read, execve, bogus} x allow subsets of {write, openat, bogus, waitpid(i386 only)} x flag spellings (comma, semicolon, blank+comma, repeated flag, a name repeated inside one value, a name repeated across flags) x formats {config, code} x binaries {amd64, 386} (quick: a rotating selection of the last dimensions; thorough: the full product); the emitted name list (YAML parsed by the harness / Go code parsed with go/parser) must equal sort(dedup((found ∩ table) − blacklist) ∪ (allow ∩ table)); the YAML must load through ucfg and compile to a filter that, on every cell of the exact partition, allows exactly those syscalls and answers errno otherwise; non-trivial = runs with a non-empty profile"
+	ctx.Cov["rule"] = "the real profiler binary (with a fake `go` tool printing a synthetic listing) is run for every sub-multiset of a 6-site universe (read, write at two sites, exit_group, a number in no table, syscall 0 through the XOR idiom) x blacklist subsets of {read, exit_group, bogus_syscall} x allow subsets of {write, rt_sigreturn, bogus_allow, waitpid(i386 only)} x flag spellings (comma, semicolon, blank+comma, repeated flag, a name repeated inside one value, a name repeated across flags) x formats {config, code} x binaries {amd64, 386} (quick: a rotating selection of the last dimensions; thorough: the full product); the emitted name list (YAML parsed by the harness / Go code parsed with go/parser) must equal sort(dedup((found ∩ table) − blacklist) ∪ (allow ∩ table)); the YAML must load through ucfg and compile to a filter that, on every cell of the exact partition, allows exactly those syscalls and answers errno otherwise; non-trivial = runs with a non-empty profile"
 	ctx.Assumptions = []string{"set algebra of the statement for disjoint flag sets", "the fake go tool stands for the disassembler"}
 	return ctx.Finish()
 }
